@@ -13,7 +13,7 @@
 //! @funcs scripts::preprocess_text, ScriptType::from(u32), unicode::mcc::{sort_by_modified_combining_class, modified_combining_class}, scripts::arabic::{reorder_marks, reorder_marks_shadda, reorder_marks_other_combining, is_modifier_combining_mark}, <[char]>::split_mut
 //! @stub core::slice::sort::stable::sort -> insertion sort by the same comparison (stable), stated contract of slice::sort_by / sort_by_key
 //! @stub unicode_canonical_combining_class::get_canonical_combining_class (third-party two-level table, 10 min without an answer when indexed by a symbolic char) -> the Unicode classes of the 8-character alphabet used here, 0 for anything else
-//! @out the contents of the modified-combining-class table (the property does not pin them; the crate's own modified_combining_class is used as the class function of the oracle), std's sort, runs of more than 3 characters, the exact order the Arabic shadda / modifier-mark rules produce, the Thai/Lao SARA AM split, Indic and Khmer decompositions, the Bengali and Kannada special cases and dotted-circle insertion (Vec::insert on a symbolic condition: not attempted in the time available)
+//! @out the contents of the modified-combining-class table (the property does not pin them; the crate's own modified_combining_class is used as the class function of the oracle), std's sort, texts of more than 3 characters, the exact order the Arabic shadda / modifier-mark rules produce, the Thai/Lao SARA AM split, Indic and Khmer decompositions, the Bengali and Kannada special cases and dotted-circle insertion (Vec::insert on a symbolic condition: not attempted in the time available)
 
 use allsorts::scripts::preprocess_text;
 use allsorts::tag;
@@ -74,31 +74,35 @@ fn is_base(c: char) -> bool {
     modified_combining_class(c) == ModifiedCombiningClass::NotReordered
 }
 
-/// The property's reference: bases keep their place, every maximal run of marks is sorted
-/// stably by class.
+/// Stable sort of positions i < j of `out` by `key` (one compare-exchange; equal keys stay).
+fn order(out: &mut [char; N], key: &mut [u8; N], i: usize, j: usize) {
+    if key[j] < key[i] {
+        out.swap(i, j);
+        key.swap(i, j);
+    }
+}
+
+/// The property's reference, written without loops (symbolic loop bounds in the oracle made
+/// CBMC unroll it 6 x 6 x 6 times): bases keep their place, every maximal run of marks is sorted
+/// stably by class. With 3 characters the runs are: all three, the first two, the last two, or
+/// single marks. The class of each input character is looked up once.
 fn reference(input: [char; N]) -> [char; N] {
     let mut out = input;
-    let mut start = 0;
-    while start < N {
-        if is_base(out[start]) {
-            start += 1;
-            continue;
-        }
-        let mut end = start;
-        while end < N && !is_base(out[end]) {
-            end += 1;
-        }
-        // stable insertion sort of out[start..end] by class
-        let mut i = start + 1;
-        while i < end {
-            let mut j = i;
-            while j > start && modified_combining_class(out[j]) < modified_combining_class(out[j - 1]) {
-                out.swap(j - 1, j);
-                j -= 1;
-            }
-            i += 1;
-        }
-        start = end;
+    let mut key = [
+        modified_combining_class(input[0]) as u8,
+        modified_combining_class(input[1]) as u8,
+        modified_combining_class(input[2]) as u8,
+    ];
+    let mark = [key[0] != 0, key[1] != 0, key[2] != 0];
+    if mark[0] && mark[1] && mark[2] {
+        // insertion sort of three: stable
+        order(&mut out, &mut key, 0, 1);
+        order(&mut out, &mut key, 1, 2);
+        order(&mut out, &mut key, 0, 1);
+    } else if mark[0] && mark[1] {
+        order(&mut out, &mut key, 0, 1);
+    } else if mark[1] && mark[2] {
+        order(&mut out, &mut key, 1, 2);
     }
     out
 }
@@ -110,8 +114,9 @@ fn sorted_mark_runs(script: u32) {
     assert!(cs.len() == N, "length unchanged");
     let want = reference(input);
     assert!(cs[0] == want[0] && cs[1] == want[1] && cs[2] == want[2], "mark runs sorted stably, bases fixed");
-    kani::cover!(is_base(input[0]) && !is_base(input[1]) && !is_base(input[2]) && cs[1] != input[1], "two marks swapped after a base");
-    kani::cover!(!is_base(input[0]) && is_base(input[1]) && !is_base(input[2]), "marks separated by a base");
+    kani::cover!(input[0] == 'a' && cs[1] != input[1], "two marks swapped after a base");
+    kani::cover!(input[0] == '\u{0301}' && input[1] == '\u{0300}' && input[2] == '\u{0323}' && cs[0] == '\u{0323}', "three marks: lower class first, equal classes keep their order");
+    kani::cover!(input[1] == 'a' && input[0] == '\u{0301}' && input[2] == '\u{0323}', "marks separated by a base");
     std::mem::forget(cs);
 }
 
@@ -170,6 +175,7 @@ fn c17_myanmar_untouched() {
 /// Arabic (AMTRA): whatever order the shadda / modifier-mark rules choose, the result is a
 /// permutation of the input in which base characters keep their position and every mark stays
 /// inside its own run of marks.
+// @tier thorough
 // @bound text of 3 characters drawn from an 8-character alphabet (2 bases, marks of classes 230, 230, 220, 33, 27, 103); tag arab
 #[kani::proof]
 #[kani::unwind(6)]
@@ -184,20 +190,22 @@ fn c17_arabic_marks_stay_in_their_run() {
     // permutation: one of the 6 arrangements of the input
     let p = |a: usize, b: usize, c: usize| out[0] == input[a] && out[1] == input[b] && out[2] == input[c];
     assert!(p(0, 1, 2) || p(0, 2, 1) || p(1, 0, 2) || p(1, 2, 0) || p(2, 0, 1) || p(2, 1, 0), "permutation of the input");
-    let mut i = 0;
-    while i < N {
-        if is_base(input[i]) {
-            assert!(out[i] == input[i], "a base character moved");
-        } else {
-            assert!(!is_base(out[i]), "a mark left its run");
-        }
-        i += 1;
-    }
+    let base = [is_base(input[0]), is_base(input[1]), is_base(input[2])];
+    assert!(!base[0] || out[0] == input[0], "a base character moved");
+    assert!(!base[1] || out[1] == input[1], "a base character moved");
+    assert!(!base[2] || out[2] == input[2], "a base character moved");
+    assert!(base[0] || !is_base(out[0]), "a mark left its run");
+    assert!(base[1] || !is_base(out[1]), "a mark left its run");
+    assert!(base[2] || !is_base(out[2]), "a mark left its run");
     // a base in the middle separates two one-mark runs: nothing can move
-    if is_base(input[1]) {
+    if base[1] {
         assert!(out[0] == input[0] && out[2] == input[2], "a mark crossed a base");
     }
+    // the shadda rule on a run of marks after a base: a shadda ends up first in the run
+    if base[0] && !base[1] && !base[2] && (input[1] == '\u{0651}' || input[2] == '\u{0651}') {
+        assert!(out[1] == '\u{0651}', "shadda moves to the start of its run");
+    }
     kani::cover!(out[0] != input[0], "marks reordered");
-    kani::cover!(is_base(input[1]) && !is_base(input[0]) && !is_base(input[2]), "marks separated by a base");
+    kani::cover!(input[0] == '\u{0628}' && input[1] == '\u{064B}' && input[2] == '\u{0651}', "beh + fathatan + shadda");
     std::mem::forget(cs);
 }
